@@ -142,7 +142,24 @@ Definition agree (c : case) : bool :=
 
 (** ** C01 on the implementation's type: every enumerated spec response is admitted *)
 
-Definition sigmas (D : opdoc) : list asg := all_asg (firstn 6 (doc_vars D)).
+(** the boolean variables that can influence a definition: those of its selection set, deep, through
+    fragments (assignments of other variables of the document would only repeat the same responses) *)
+Fixpoint reach_vars (fuel : nat) (F : list fragdef) (sels : list selection) {struct fuel} : list str :=
+  match fuel with
+  | O => []
+  | Datatypes.S f =>
+      flat_map (fun x =>
+        match x with
+        | SField _ _ _ ds sub => dir_vars ds ++ match sub with Some ss => reach_vars f F (selset_sels ss) | None => [] end
+        | SSpread _ n ds => dir_vars ds ++ match sp_frag F (iname n) with
+                                           | Some fd => reach_vars f F (selset_sels (fr_sel fd))
+                                           | None => []
+                                           end
+        | SInline _ _ ds ss => dir_vars ds ++ reach_vars f F (selset_sels ss)
+        end) sels
+  end.
+Definition sigmas (D : opdoc) (sels : list selection) : list asg :=
+  all_asg (firstn 6 (dedup (reach_vars (sp_fuel D) (sp_frags D) sels))).
 
 Definition c01_on (S : tsdoc) (D : opdoc) (d : execdef) (t : tstype) : bool :=
   match def_target S d with
@@ -151,7 +168,7 @@ Definition c01_on (S : tsdoc) (D : opdoc) (d : execdef) (t : tstype) : bool :=
       let F := sp_frags D in
       let E := schema_env S in
       let fuel := sp_fuel D in
-      let cands := sample CAND_CAP (flat_map (fun sg => map (fun v => (sg, v)) (exec_enum S F fuel sg fuel T sels)) (sigmas D)) in
+      let cands := sample CAND_CAP (flat_map (fun sg => map (fun v => (sg, v)) (exec_enum S F fuel sg fuel T sels)) (sigmas D sels)) in
       let real := filter (fun p => exec_b S F fuel (fst p) fuel T sels (snd p)) cands in
       negb (is_nil real) && forallb (fun p => admits E HT_FUEL t (snd p)) real
   end.
